@@ -54,7 +54,7 @@ func init() {
 			"row bound for a successful decode: ncols * (len/32+1)^d, d = deepest array nesting above a selected leaf (min 1): every array level needs its head words inside the data",
 			"allocation bound per call (Scan+Bytes): 1 MiB + 256*(rows+1)*(ncols+1) + 64*len bytes of runtime.MemStats.TotalAlloc, measured in a goroutine that is the only one running; 256 B/row/column is several times what a row slice and its copy cost, so only allocation driven by a claimed length can exceed it",
 			"inputs are sized so that even (len/32)^d rows stay below ~250k; self-aliasing data may legitimately cost that much work",
-			"a call on <= 4 KiB that does not return within 20 s is inconclusive unless its allocation already exceeded the bound (then: violation unbounded-alloc)",
+			"a call still running after 50 ms is polled every 50 ms: allocation more than 768 MiB above the bound ends the observation as violation unbounded-alloc; a call that does not return within 20 s is inconclusive unless its allocation already exceeds the bound for the largest legitimate row count (then: violation). The worker's address space is limited to 8 GiB so that a runaway decoder dies (crash attributed to the case in flight) instead of exhausting the machine",
 			"reads outside the input that neither panic nor leak into a returned slice are observable only through the cap == len presentation (they panic there)",
 		},
 		NCases: func(tier string) int {
